@@ -170,3 +170,31 @@ Qed.
 
 Theorem FanInv_reachable progs sched : FanInv (run sched (init_cfg progs)).
 Proof. apply run_invariant; [intros; eapply step_FanInv; eauto | apply FanInv_init]. Qed.
+
+(* ------------------------------------------------------------------------------------------ *)
+(* 2. Snapshots have no duplicate receivers; the relation set has no duplicate relation        *)
+
+Definition WF (s : shared) : Prop :=
+  NoDup (rels s) /\ Forall (fun f => NoDup (snd (snd f))) (fans s).
+
+Lemma kind_eqb_refl k : kind_eqb k k = true. Proof. destruct k; reflexivity. Qed.
+Lemma kind_eqb_eq a b : kind_eqb a b = true -> a = b. Proof. destruct a, b; cbn; congruence. Qed.
+Lemma rel_eqb_eq a b : rel_eqb a b = true -> a = b.
+Proof.
+  destruct a as [x k], b as [y k']. unfold rel_eqb. cbn. intros H. apply andb_true_iff in H as [H1 H2].
+  apply Nat.eqb_eq in H1. apply kind_eqb_eq in H2. congruence.
+Qed.
+Lemma has_rel_false l x k : has_rel l x k = false -> ~ In (x, k) l.
+Proof.
+  unfold has_rel. intros H Hin. rewrite <- not_true_iff_false in H. apply H. apply existsb_exists.
+  exists (x, k). split; [exact Hin|]. unfold rel_eqb. cbn. rewrite Nat.eqb_refl, kind_eqb_refl. reflexivity.
+Qed.
+Lemma has_rel_true l x k : has_rel l x k = true -> In (x, k) l.
+Proof.
+  unfold has_rel. intros H. apply existsb_exists in H as (e & Hin & He). apply rel_eqb_eq in He. subst. exact Hin.
+Qed.
+
+Lemma NoDup_snoc {A} (l : list A) x : NoDup l -> ~ In x l -> NoDup (l ++ [x]).
+Proof.
+  intros Hl Hx. apply NoDup_app_iff_local. exact Hl. exact Hx.
+Qed.
